@@ -329,6 +329,62 @@ type CrashResult struct {
 	Err   string // "" when the resume completes and reaches the clean final state
 }
 
+// CheckReplay2 explores every pair of crash points: the first run crashes
+// after k operations, the resumed run crashes after j operations of whatever
+// sequence the resume site chose, and a final resume must complete and reach
+// the clean final state. After is reported as k*1000+j.
+func CheckReplay2(initial FS, ops []PlanOp, resume Resume) []CrashResult {
+	clean := initial.clone()
+	for _, o := range ops {
+		if e := clean.Apply(o); e != "" {
+			return []CrashResult{{After: -1, Err: "uninterrupted run fails in the model at " + o.String() + ": " + e}}
+		}
+	}
+	want := strings.Join(clean.Keys(), "\n")
+	choose := func(st FS) []PlanOp {
+		if resume.GuardExists != nil && st.Exists(*resume.GuardExists) {
+			return resume.Short
+		}
+		return ops
+	}
+	var out []CrashResult
+	for k := 0; k <= len(ops); k++ {
+		st1 := initial.clone()
+		for _, o := range ops[:k] {
+			st1.Apply(o)
+		}
+		seq1 := choose(st1)
+		for j := 0; j <= len(seq1); j++ {
+			st := st1.clone()
+			res := CrashResult{After: k*1000 + j}
+			failed := false
+			for _, o := range seq1[:j] {
+				if e := st.Apply(o); e != "" {
+					// the resumed run already fails here: reported by the single-crash exploration
+					failed = true
+					break
+				}
+			}
+			if failed {
+				continue
+			}
+			for _, o := range choose(st) {
+				if e := st.Apply(o); e != "" {
+					res.Err = "second resume fails at " + o.String() + ": " + e
+					break
+				}
+			}
+			if res.Err == "" {
+				if got := strings.Join(st.Keys(), "\n"); got != want {
+					res.Err = "second resume completes but the final state differs from an uninterrupted run: have {" + strings.Join(st.Keys(), ", ") + "}"
+				}
+			}
+			out = append(out, res)
+		}
+	}
+	return out
+}
+
 // CheckReplay explores every crash point of the plan.
 func CheckReplay(initial FS, ops []PlanOp, resume Resume) []CrashResult {
 	clean := initial.clone()
